@@ -302,7 +302,7 @@ def c18(tier, seed):
                 cases.append(_drv_case(prop, "C18-%s-%s-%s-%d" % (sc, envname(e), v, s), v, ["--profile", "purge", "--seed", s, "--scenario", sc], env=e, timeout=300, crash_refutes=["C01"],
                                        meta={"scenario": sc, "config": envname(e), "seed": s}))
     idx = 0
-    for v in variants:
+    for v in variants[:1]:      # the percentage yardstick is calibrated for the release build only (the debug build fills freed blocks, which touches pages the release build never touches)
         for (sc, e) in cfgs:
             for k in range(tier_n(tier, 1, 6)):
                 s = case_seed(seed, prop, idx); idx += 1
